@@ -8,6 +8,9 @@ CONSTANTS
   KCfgs <- DefKCfgs
   Guard = "none"
   KAvg = "total"
+  AbExps = {4}
+  AbOrd = 4
+  AbFloor = 99
   OnlyBasis = TRUE
   Export = FALSE
 CONSTRAINT Emit
